@@ -60,12 +60,13 @@ func (i Inject) String() string {
 
 // StraceOpts parameterises one traced run.
 type StraceOpts struct {
-	Trace  []string // syscall names to trace (default MutatingSyscalls); the injected syscall is added
-	Inject *Inject  // optional fault
-	Path   string   // optional -P scoping
-	Dir    string   // working directory of the tracee
-	Env    []string // environment of the tracee (nil = inherit)
-	Stdin  []byte
+	Trace    []string // syscall names to trace (default MutatingSyscalls); the injected syscall is added
+	Inject   *Inject  // optional fault
+	Path     string   // optional -P scoping
+	NoFollow bool     // do not pass -f: only the initial thread is traced (cheaper; enough for single-threaded helpers)
+	Dir      string   // working directory of the tracee
+	Env      []string // environment of the tracee (nil = inherit)
+	Stdin    []byte
 }
 
 // Syscall is one syscall *entry* seen in the trace.
@@ -134,10 +135,15 @@ func StraceAvailable() error {
 			return
 		}
 		straceKnown = map[string]bool{}
-		for _, n := range MutatingSyscalls {
-			if exec.Command(p, "-o", "/dev/null", "-e", "trace="+n, "/bin/true").Run() == nil {
+		// one probe for the whole default set; only if that is rejected, probe name by name
+		if exec.Command(p, "-o", "/dev/null", "-e", "trace="+strings.Join(MutatingSyscalls, ","), "/bin/true").Run() == nil {
+			for _, n := range MutatingSyscalls {
 				straceKnown[n] = true
 			}
+			return
+		}
+		for _, n := range MutatingSyscalls {
+			straceKnown[n] = exec.Command(p, "-o", "/dev/null", "-e", "trace="+n, "/bin/true").Run() == nil
 		}
 	})
 	return straceErr
@@ -191,7 +197,10 @@ func Strace(o StraceOpts, argv ...string) (*StraceResult, error) {
 	}
 	f.Close()
 	defer os.Remove(f.Name())
-	args := []string{"-f", "-q", "-s", "64", "-o", f.Name(), "-e", "trace=" + strings.Join(tr, ",")}
+	args := []string{"-q", "-s", "200", "-o", f.Name(), "-e", "trace=" + strings.Join(tr, ",")}
+	if !o.NoFollow {
+		args = append([]string{"-f"}, args...)
+	}
 	if o.Inject != nil {
 		args = append(args, "-e", o.Inject.String())
 	}
@@ -245,15 +254,16 @@ func parseStrace(b []byte) *StraceResult {
 	exitSeen := false
 	for sc.Scan() {
 		line := sc.Text()
-		sp := strings.IndexByte(line, ' ')
-		if sp <= 0 {
+		// with -f every line starts with the thread id; without it there is no prefix (tid 1 is used)
+		tid, rest := 1, line
+		if sp := strings.IndexByte(line, ' '); sp > 0 {
+			if n, err := strconv.Atoi(line[:sp]); err == nil {
+				tid, rest = n, strings.TrimLeft(line[sp:], " ")
+			}
+		}
+		if rest == "" {
 			continue
 		}
-		tid, err := strconv.Atoi(line[:sp])
-		if err != nil {
-			continue
-		}
-		rest := strings.TrimLeft(line[sp:], " ")
 		if res.MainTID == 0 {
 			res.MainTID = tid
 		}
